@@ -100,6 +100,15 @@ func (in *Interp) nativeErr(err error) Value {
 		p := in.Prog.ImportedPackage("io")
 		return in.load(in.global(p.Var("ErrUnexpectedEOF")))
 	}
+	if se, ok := err.(*json.SyntaxError); ok {
+		// a typed *json.SyntaxError in the interpreted heap (callers inspect and adjust Offset)
+		t := in.namedType("encoding/json", "SyntaxError")
+		o := in.zero(t).(*Obj)
+		o.Cells[0] = Str{S: se.Error()}
+		o.Cells[1] = in.St.BVConstI(se.Offset, 64)
+		box := &Obj{Cells: []Value{o}, T: t}
+		return Iface{T: types.NewPointer(t), V: Ptr{O: box, I: 0}}
+	}
 	return in.goError(err.Error())
 }
 
